@@ -1,5 +1,6 @@
 -- Root of the `SonicSpec` library: models, proofs and property theorems.
 import SonicSpec.Model.Hex
 import SonicSpec.Model.Str
+import SonicSpec.Model.JsonTree
 import SonicSpec.Driver.Dispatch
 import SonicSpec.Props.C20
